@@ -67,6 +67,34 @@ def typed_collection_part(ctx):
                 sc = gen.make_scenario(wf, {'s': {'exec': {'out': 'success'}}}, inp, None, timeout_ms=15000)
                 scs.append(sc)
                 names.append('%s of (%s, %s) in %s, input %s' % (shape, a, b, where, inp['label']))
+    # collections built from whole OUTPUTS of steps (objects of different shapes: a plugin's success and error outputs, an
+    # engine-generated object, a loop's result): the same oracle
+    import check_c13
+    pieces = {'success-object': 'steps.a.outputs.success', 'error-object': 'steps.b.outputs.error', 'started': 'steps.a.starting.started',
+              'enabling': 'steps.a.enabling.resolved', 'loop-result': 'steps.loop.outputs.success', 'success-field': 'steps.a.outputs.success.tok',
+              'number-field': 'steps.a.outputs.success.n'}
+    opairs = list(itertools.permutations(sorted(pieces), 2))
+    if ctx.quick:
+        opairs = [p for p in opairs if p[0] in ('success-object', 'loop-result', 'started')][:12]
+    for a, b in opairs:
+        for shape, where in itertools.product(('list', 'list-of-maps'), ('output', 'step-input')):
+            ra, rb = pieces[a], pieces[b]
+            coll = tlist([ref(ra), ref(rb)]) if shape == 'list' else tlist([tmap({'p': ref(ra)}), tmap({'p': ref(rb)})])
+            sin = {'id': lit('s')}
+            out = {'t': ref('steps.s.outputs.success.tok')}
+            if where == 'output':
+                out['c'] = coll
+            else:
+                sin['deps'] = tmap({'c': coll})
+            wf = {'steps': {'a': {'kind': 'plugin', 'pstep': 'work', 'fields': {'input': tmap({'id': lit('a')})}},
+                            'b': {'kind': 'plugin', 'pstep': 'work', 'fields': {'input': tmap({'id': lit('b')})}},
+                            'loop': {'kind': 'foreach', 'workflow': 'sub.yaml', 'fields': {'items': lit([{'id': 'i0'}])}},
+                            's': {'kind': 'plugin', 'pstep': 'work', 'fields': {'input': tmap(sin)}}},
+                  'outputs': {'success': tmap(out)}}
+            script = {'a': {'exec': {'out': 'success'}}, 'b': {'exec': {'out': 'error'}}, 's': {'exec': {'out': 'success'}}, 'w': {'exec': {'out': 'success'}}}
+            sc = gen.make_scenario(wf, script, {'x': 'x', 'n': 1, 'flag': True}, None, subwfs={'sub.yaml': check_c13.sub_wf(False)}, timeout_ms=15000)
+            scs.append(sc)
+            names.append('%s of outputs (%s, %s) in %s, input -' % (shape, a, b, where))
     res = vlib.run_scenarios(ctx.binary(), scs, ctx.work, prefix='t')
     n_acc = 0
     for n, r in zip(names, res):
